@@ -549,6 +549,10 @@ func (m *Dense) Stack(a, b Matrix) {
 	}
 
 	m.reuseAsNonZeroed(ar+br, ac)
+	aU, _ := untransposeExtract(a)
+	bU, _ := untransposeExtract(b)
+	m.checkOverlapMatrix(aU)
+	m.checkOverlapMatrix(bU)
 
 	m.Copy(a)
 	w := m.slice(ar, ar+br, 0, bc)
@@ -567,6 +571,10 @@ func (m *Dense) Augment(a, b Matrix) {
 	}
 
 	m.reuseAsNonZeroed(ar, ac+bc)
+	aU, _ := untransposeExtract(a)
+	bU, _ := untransposeExtract(b)
+	m.checkOverlapMatrix(aU)
+	m.checkOverlapMatrix(bU)
 
 	m.Copy(a)
 	w := m.slice(0, br, ac, ac+bc)
